@@ -707,6 +707,10 @@ func ruleEndian(p *Prog, r *Report) {
 			continue
 		}
 		key := fmt.Sprintf("%s:ast.(*%s).ToBytes:loop", rule, tn)
+		if d, ok := bigEndianStdlib(p, fn); ok {
+			r.ok(rule, key, p.Pos(fn.Pos()), d)
+			continue
+		}
 		desc, ok, undec := bigEndianLoop(p, fn)
 		switch {
 		case undec:
@@ -842,4 +846,37 @@ func bigEndianLoop(p *Prog, fn *ssa.Function) (desc string, ok bool, undecided b
 		}
 	}
 	return "no byte(x >> shift) emission found", false, true
+}
+
+// bigEndianStdlib recognises an emission through encoding/binary: for every
+// element width k the only emission calls reached are
+// binary.BigEndian.AppendUint<8k> / PutUint<8k> (a plain byte append for k = 1).
+func bigEndianStdlib(p *Prog, fn *ssa.Function) (string, bool) {
+	for _, k := range []int64{1, 2, 4, 8} {
+		in := NewInterp(p)
+		in.PathBind["p0.byteSize"] = int64Val(k)
+		in.PathBind["len(p0.variables)"] = int64Val(0)
+		got := map[string]bool{}
+		in.OnCall = func(call *ssa.Call, callee *ssa.Function, a []Val, fr *frame) {
+			if fr.fn == fn && callee.Pkg != nil && callee.Pkg.Pkg.Path() == "encoding/binary" {
+				recv := ""
+				if callee.Signature.Recv() != nil {
+					recv = types.TypeString(callee.Signature.Recv().Type(), func(*types.Package) string { return "" })
+				}
+				got[recv+"."+callee.Name()] = true
+			}
+		}
+		in.Run(fn, defaultArgs(fn), nil)
+		if k == 1 {
+			if len(got) != 0 {
+				return "", false
+			}
+			continue
+		}
+		want1, want2 := fmt.Sprintf("bigEndian.AppendUint%d", 8*k), fmt.Sprintf("bigEndian.PutUint%d", 8*k)
+		if len(got) != 1 || !(got[want1] || got[want2]) {
+			return "", false
+		}
+	}
+	return "multi-byte elements are emitted with binary.BigEndian.AppendUint/PutUint of the element's own width", true
 }
